@@ -47,6 +47,18 @@ class Generic:
         self.pattern = pattern
 
 
+def nth_bridge(ctx, seq):
+    """Nth(seq, i) is seq[i] for in-range i (definition of the trigger-friendly accessor)."""
+    from .core import Nth, tid
+    key = ("nth", tid(seq))
+    if key in ctx.ghost:
+        return
+    ctx.ghost[key] = True
+    i = z3.Const("i!nth", IntSort)
+    ctx.axiom(z3.ForAll([i], z3.Implies(z3.And(i >= 0, i < z3.Length(seq)), Nth(seq, i) == seq[i]), patterns=[Nth(seq, i)]),
+              "Nth(seq, i) = seq[i] for 0 <= i < len(seq)")
+
+
 def generic_element(interp, it, name="e"):
     """Generic (bound) element of a symbolic iterable, or None if the iterable is concrete."""
     ctx = interp.ctx
@@ -67,12 +79,18 @@ def generic_element(interp, it, name="e"):
         k = z3.Const(B.fresh_bv("k"), StringSort)
         return Generic(k, z3.Select(it.pred, k), SVal(mk_str(k)), z3.Select(it.pred, k))
     if isinstance(it, HList) and it.mode == "s":
+        from .core import Nth
         i = z3.Const(B.fresh_bv("i"), IntSort)
-        return Generic(i, z3.And(i >= 0, i < z3.Length(it.seq)), SVal(it.seq[i]), it.seq[i], z3.Length(it.seq))
+        el = Nth(it.seq, i)
+        nth_bridge(ctx, it.seq)
+        return Generic(i, z3.And(i >= 0, i < z3.Length(it.seq)), SVal(el), el, z3.Length(it.seq))
     if isinstance(it, SymEnumerate):
+        from .core import Nth
         i = z3.Const(B.fresh_bv("i"), IntSort)
         seq = it.l.seq
-        return Generic(i, z3.And(i >= 0, i < z3.Length(seq)), (SVal(mk_int(i)), SVal(seq[i])), seq[i], z3.Length(seq))
+        el = Nth(seq, i)
+        nth_bridge(ctx, seq)
+        return Generic(i, z3.And(i >= 0, i < z3.Length(seq)), (SVal(mk_int(i)), SVal(el)), el, z3.Length(seq))
     return None
 
 
@@ -190,7 +208,7 @@ def foreach_concrete(interp, s, frame, items):
     ctx = interp.ctx
     per = []
     for x in items:
-        outs = summarize(interp, _body_thunk(interp, s, frame, x))
+        outs = summarize(interp, _body_thunk(interp, s, frame, x), site=(id(s), 'for', len(per)))
         per.append(outs)
     normal_conds = [disj([o.cond() for o in outs if o.kind in ("normal", "continue")]) for outs in per]
     alts = [("normal", z3.And(*normal_conds) if normal_conds else z3.BoolVal(True), None)]
@@ -244,7 +262,7 @@ def subst_value(interp, v, bv, star):
 def foreach_generic(interp, s, frame, g):
     from .interp import _Return
     ctx = interp.ctx
-    outs = summarize(interp, _body_thunk(interp, s, frame, g.value, g.member), bound=[g.bv])
+    outs = summarize(interp, _body_thunk(interp, s, frame, g.value, g.member), bound=[g.bv], site=(id(s), 'forg'))
     normal = disj([o.cond() for o in outs if o.kind in ("normal", "continue")])
     allnormal = z3.ForAll([g.bv], z3.Implies(g.member, normal), patterns=[g.pattern] if g.pattern is not None else [])
     star = ctx.fresh("elem", g.bv.sort())
@@ -362,7 +380,7 @@ def eval_comprehension(interp, node, frame, kind):
     if g is None:
         raise Unsupported("comprehension over %r" % (it,))
     ctx = interp.ctx
-    outs = summarize(interp, _comp_thunk(interp, node, frame, g.value, g.member, elt_fn), bound=[g.bv])
+    outs = summarize(interp, _comp_thunk(interp, node, frame, g.value, g.member, elt_fn), bound=[g.bv], site=(id(node), 'comp'))
     _abrupt_alternatives(interp, outs, g)
     if kind == "set":
         # only `{x for x in coll if cond}` with x the element itself (a predicate subset)
@@ -371,7 +389,8 @@ def eval_comprehension(interp, node, frame, kind):
             raise Unsupported("set comprehension over a symbolic collection with a mapped element")
         keep = disj([o.cond() for o in outs if o.kind == "normal" and o.value[0] == "keep"])
         r = ctx.fresh("setcomp", z3.ArraySort(StringSort, BoolSort))
-        ctx.axiom(z3.ForAll([g.bv], z3.Select(r, g.bv) == z3.And(g.member, keep), patterns=[z3.Select(r, g.bv)]),
+        pats = [z3.Select(r, g.bv)] + ([g.pattern] if g.pattern is not None else [])
+        ctx.axiom(z3.ForAll([g.bv], z3.Select(r, g.bv) == z3.And(g.member, keep), patterns=pats),
                   "set comprehension as a predicate subset")
         return HSet(pred=r)
     if kind == "list":
@@ -386,9 +405,12 @@ def eval_comprehension(interp, node, frame, kind):
             val = z3.If(o.cond(), t, val)
         r = ctx.fresh("listcomp", SeqPV)
         src_len = g.length
+        from .core import Nth
         ctx.axiom(z3.Length(r) == src_len, "list comprehension preserves length")
-        ctx.axiom(z3.ForAll([g.bv], z3.Implies(g.member, r[g.bv] == val), patterns=[r[g.bv]]),
+        pats = [Nth(r, g.bv)] + ([g.pattern] if g.pattern is not None else [])
+        ctx.axiom(z3.ForAll([g.bv], z3.Implies(g.member, Nth(r, g.bv) == val), patterns=pats),
                   "list comprehension element-wise definition")
+        nth_bridge(ctx, r)
         return HList(seq=r)
     raise Unsupported("dict comprehension over a symbolic collection")
 
@@ -456,7 +478,7 @@ def quant_over(interp, v, is_all):
         g = generic_element(interp, it)
         if g is None:
             raise Unsupported("all/any over %r" % (it,))
-        outs = summarize(interp, _comp_thunk(interp, node, frame, g.value, g.member, elt_fn), bound=[g.bv])
+        outs = summarize(interp, _comp_thunk(interp, node, frame, g.value, g.member, elt_fn), bound=[g.bv], site=(id(node), 'quant'))
         # an element that raises before the verdict is reached: over-approximated by "some element raises"
         _abrupt_alternatives(interp, outs, g)
         sat_parts = []
